@@ -46,6 +46,12 @@ class Ctx:
         self.crate = crate
         self.config = config
         self._fa = {}
+        FnA._summaries = {}
+        from .rules import names as _n
+        import hcsa.analysis as _a
+        _a.NO_SUMMARY.update(v for v in vars(_n).values() if isinstance(v, str))
+        _a.NO_SUMMARY.update(x for v in vars(_n).values() if isinstance(v, tuple) for x in v if isinstance(x, str))
+        FnA.resolver = lambda name, self=self: (self.fa(self.crate.body(name)) if self.crate.body(name) is not None and self.crate.body(name).kind in ("Fn", "AssocFn") else None)
         self.insts = []
         self.t0 = time.time()
 
@@ -137,8 +143,22 @@ def call_root_bb(term):
 
 
 def checked(fa, s):
-    """if call site s is `?`-checked: returns dict(branch=bb of Try::branch,
-    ok=Continue successor, err=Break successor) else None."""
+    """if the result of call site s is checked — by `?`, or by an explicit match / if-let whose
+    Err side returns an error — returns dict(branch=bb of Try::branch or None, ok=success
+    successor, err=failure successor) else None."""
+    c = _checked_q(fa, s)
+    if c is not None:
+        return c
+    e = result_edges(fa, s, _explicit_only=True)
+    if e is not None and e["err"] is not None and e["ok"] is not None:
+        vals = [t for bb, _, t in ret_assigns(fa) if bb in fa.reach(e["err"], include_src=True)]
+        errs = [t for t in vals if is_agg(t, "Err") or (t[0] == "call" and t[2] in FROM_RESIDUAL)]
+        if errs and not fa.can_reach(e["err"], e["ok"]) and e["err"] != e["ok"]:
+            return {"branch": None, "ok": e["ok"], "err": e["err"]}
+    return None
+
+
+def _checked_q(fa, s):
     for n, t in fa.calls():
         if t.get("callee") not in BRANCH:
             continue
@@ -223,7 +243,8 @@ def lvalue_path(fa, place, bi, si):
     """dotted path of an assigned place: user variable name + fields for named
     locals, else the param/field path of its origin"""
     if place["p"] and fa.upvar_name(place) is None and fa.body.local_name(place["l"]):
-        parts = [fa.body.local_name(place["l"])]
+        l = place["l"]
+        parts = [fa.body.local_name(l) if 1 <= l <= fa.body.arg_count else fa.type_name(l)]
         for e in place["p"]:
             if isinstance(e, dict) and "f" in e:
                 parts.append(e["n"])
@@ -610,10 +631,10 @@ def result_consumed(fa, l, depth=0, seen=None):
 from .analysis import POLL as POLL_, TRANSPARENT as TRANSPARENT_
 
 
-def result_edges(fa, s):
+def result_edges(fa, s, _explicit_only=False):
     """success / failure continuation of call site s, through `?` or through an
     explicit match on the (awaited) Result: dict(ok=, err=, how=) or None"""
-    c = checked(fa, s)
+    c = None if _explicit_only else _checked_q(fa, s)
     if c is not None:
         return {"ok": c["ok"], "err": c["err"], "how": "?"}
     for b in fa.live():
